@@ -8,7 +8,8 @@ import Lemmas.R2Crash
   symlinks), the *clean-up half* the three loops that delete the backup copies and the reset of the
   tracked map.  For any world with a well-formed disk and ANY fault plan:
   * the restore half never changes the backup view, and changes the base view within the footprint
-    of the tracked map only (`sat_restorePart_foot`);
+    of the tracked map only (`sat_restorePart_foot`; the footprint is computed from the backup view
+    the half starts with, see `Touches`);
   * the clean-up half never changes the base view (`sat_cleanupPart_foot`).
   Under a crash-only plan the restore half is `CS` (coincides with the fault-free run until the crash
   point) and the clean-up half is `Frozen` once crashed.
@@ -184,7 +185,7 @@ theorem sat_restorePart_foot {w : World} {infos : List (Path × Option Info)} (h
     (hroot : (kp [], none) ∉ infos)
     (hnolink : ∀ p i, (p, some i) ∈ infos → i.kind ≠ .link) :
     Sat (restorePart cfg infos) w (fun w' r =>
-      S.Foot (BaseFoot infos) (FileFoot infos) (fun _ => False) w w' ∧
+      S.Foot (BaseFoot (S.view .backup w.fs) infos) (FileFoot (S.view .backup w.fs) infos) (fun _ => False) w w' ∧
         ∀ res, r = .ok res → PlanOK infos res.1) := by
   have hsome : ∀ {p : Path} {i : Info}, p ≠ rootP → (p, some i) ∈ infos → ∃ k, p = kp k ∧ TrackedKey infos k (some i) := by
     intro p i hp hm
@@ -198,28 +199,28 @@ theorem sat_restorePart_foot {w : World} {infos : List (Path × Option Info)} (h
   apply Sat.bind
   apply (sat_classify_any S (infos := infos) infos {} w w (fun _ h => h) (SameFS.refl w) (PlanOK.empty _)).mono
   intro w1 r ⟨hs1, hplan⟩
-  have h1 : S.Foot (BaseFoot infos) (FileFoot infos) (fun _ => False) w w1 := Sim.Foot.of_same hg hs1
+  have h1 : S.Foot (BaseFoot (S.view .backup w.fs) infos) (FileFoot (S.view .backup w.fs) infos) (fun _ => False) w w1 := Sim.Foot.of_same hg hs1
   cases r with
   | error e => exact ⟨h1, fun res h => by cases h⟩
   | ok pl =>
     have hpl := hplan pl rfl
     simp only
     refine ⟨?_, fun res h => by rw [restoreLoops_fst cfg infos pl w1 res h]; exact hpl⟩
-    show Sat (restoreLoops cfg infos pl) w1 (fun w' _ => S.Foot (BaseFoot infos) (FileFoot infos) (fun _ => False) w w')
+    show Sat (restoreLoops cfg infos pl) w1 (fun w' _ => S.Foot (BaseFoot (S.view .backup w.fs) infos) (FileFoot (S.view .backup w.fs) infos) (fun _ => False) w w')
     unfold restoreLoops
     -- created entries are removed
-    apply Sat.seq (P := S.Foot (BaseFoot infos) (FileFoot infos) (fun _ => False) w) _ (fun _ h => h)
+    apply Sat.seq (P := S.Foot (BaseFoot (S.view .backup w.fs) infos) (FileFoot (S.view .backup w.fs) infos) (fun _ => False) w) _ (fun _ h => h)
     rotate_left
-    · apply sat_forEach_any (P := S.Foot (BaseFoot infos) (FileFoot infos) (fun _ => False) w) _ w1 h1
+    · apply sat_forEach_any (P := S.Foot (BaseFoot (S.view .backup w.fs) infos) (FileFoot (S.view .backup w.fs) infos) (fun _ => False) w) _ w1 h1
       intro x hx w' h'
       obtain ⟨k, rfl, ht⟩ := hnone (hpl.rem x ((sortBy_perm _ _).mem_iff.mp hx))
       exact (sat_removeBaseAct_chg h'.good ht.1 ht.2.1).mono (fun _ _ hc => h'.trans
         (Sim.Foot.of_base hc (fun j e => ⟨k, none, ht, Or.inl e⟩) (fun j e => ⟨k, none, ht, Or.inl e⟩)))
     intro e1 w2 h2
     -- directories are restored
-    apply Sat.seq (P := S.Foot (BaseFoot infos) (FileFoot infos) (fun _ => False) w) _ (fun _ h => h)
+    apply Sat.seq (P := S.Foot (BaseFoot (S.view .backup w.fs) infos) (FileFoot (S.view .backup w.fs) infos) (fun _ => False) w) _ (fun _ h => h)
     rotate_left
-    · apply sat_forEach_any (P := S.Foot (BaseFoot infos) (FileFoot infos) (fun _ => False) w) _ w2 h2
+    · apply sat_forEach_any (P := S.Foot (BaseFoot (S.view .backup w.fs) infos) (FileFoot (S.view .backup w.fs) infos) (fun _ => False) w) _ w2 h2
       intro x hx w' h'
       obtain ⟨hp, i, hm, hkind⟩ := hpl.dirs x ((sortBy_perm _ _).mem_iff.mp hx)
       obtain ⟨k, rfl, ht⟩ := hsome hp hm
@@ -228,24 +229,25 @@ theorem sat_restorePart_foot {w : World} {infos : List (Path × Option Info)} (h
           ⟨k, some i, ht, Or.inl rfl⟩))
     intro e2 w3 h3
     -- files are restored
-    apply Sat.seq (P := S.Foot (BaseFoot infos) (FileFoot infos) (fun _ => False) w) _ (fun _ h => h)
+    apply Sat.seq (P := S.Foot (BaseFoot (S.view .backup w.fs) infos) (FileFoot (S.view .backup w.fs) infos) (fun _ => False) w) _ (fun _ h => h)
     rotate_left
-    · apply sat_forEach_any (P := S.Foot (BaseFoot infos) (FileFoot infos) (fun _ => False) w) _ w3 h3
+    · apply sat_forEach_any (P := S.Foot (BaseFoot (S.view .backup w.fs) infos) (FileFoot (S.view .backup w.fs) infos) (fun _ => False) w) _ w3 h3
       intro x hx w' h'
       obtain ⟨hp, i, hm, hkind⟩ := hpl.files x ((sortBy_perm _ _).mem_iff.mp hx)
       obtain ⟨k, rfl, ht⟩ := hsome hp hm
+      have hbk : S.view .backup w'.fs = S.view .backup w.fs := funext (fun j => h'.backup j (fun h => h))
       exact (sat_restoreFileAct_chg h'.good ht.1 ht.2.1).mono (fun _ _ hc => h'.trans
-        (Sim.Foot.of_base hc (fun j hj => ⟨k, some i, ht, Or.inr (Or.inl ⟨i, rfl, hkind, hj⟩)⟩)
-          (fun j hj => ⟨k, some i, ht, Or.inr ⟨i, rfl, hkind, hj⟩⟩)))
+        (Sim.Foot.of_base hc (fun j hj => ⟨k, some i, ht, (FileReach.touches hkind (hbk ▸ hj)).touches⟩)
+          (fun j hj => ⟨k, some i, ht, FileReach.touches hkind (hbk ▸ hj)⟩)))
     intro e3 w4 h4
     -- no symlink is tracked
     have hnl : ∀ x, x ∈ pl.links → False := by
       intro x hx
       obtain ⟨_, i, hm, hkind⟩ := hpl.links x hx
       exact hnolink x i hm hkind
-    apply Sat.seq (P := S.Foot (BaseFoot infos) (FileFoot infos) (fun _ => False) w) _ (fun _ h => h)
+    apply Sat.seq (P := S.Foot (BaseFoot (S.view .backup w.fs) infos) (FileFoot (S.view .backup w.fs) infos) (fun _ => False) w) _ (fun _ h => h)
     rotate_left
-    · apply sat_forEach_any (P := S.Foot (BaseFoot infos) (FileFoot infos) (fun _ => False) w) _ w4 h4
+    · apply sat_forEach_any (P := S.Foot (BaseFoot (S.view .backup w.fs) infos) (FileFoot (S.view .backup w.fs) infos) (fun _ => False) w) _ w4 h4
       intro x hx w' h'
       exact absurd ((sortBy_perm _ _).mem_iff.mp hx) (hnl x)
     intro e4 w5 h5
